@@ -10,10 +10,23 @@ theorem Analog_unpack_state_independent (t u : Analog.State) (buf : Bytes) (h : 
   revert h; simp only [Analog.unpack]; repeat' split
   all_goals simp_all
 
+/-- non-vacuity: a used object decodes the encoding of a 3-byte analog payload successfully and ends as the sender -/
+example :
+    let a : Analog.State := { channel_specific_word := 0xDEADBEEF, data := [1, 2, 3] }
+    let t : Analog.State := { channel_specific_word := 5, data := [9, 9] }
+    ∃ b, Analog.pack a = .ok b ∧ b.length = 7 ∧ (Analog.unpack t b).2 = .ok () ∧ (Analog.unpack t b).1 = a :=
+  ⟨_, rfl, rfl, rfl, rfl⟩
+
 theorem CG0_unpack_state_independent (t u : Computer.State0) (buf : Bytes) (h : (Computer.State0.unpack t buf).2 = .ok ()) :
     Computer.State0.unpack t buf = Computer.State0.unpack u buf := by
   revert h; simp only [Computer.State0.unpack]; repeat' split
   all_goals simp_all
+
+example :
+    let a : Computer.State0 := { csdw := 7, payload := [0x41] }
+    let t : Computer.State0 := { csdw := 99, payload := [1, 2, 3] }
+    ∃ b, a.pack = .ok b ∧ b.length = 5 ∧ (Computer.State0.unpack t b).2 = .ok () ∧ (Computer.State0.unpack t b).1 = a :=
+  ⟨_, rfl, rfl, rfl, rfl⟩
 
 theorem CG1_unpack_state_independent (t u : Computer.State1) (buf : Bytes) (h : (Computer.State1.unpack t buf).2 = .ok ()) :
     Computer.State1.unpack t buf = Computer.State1.unpack u buf := by
@@ -27,6 +40,13 @@ theorem CG1_unpack_state_independent (t u : Computer.State1) (buf : Bytes) (h : 
       have := CG0_unpack_state_independent t.base u.base buf (by rw [ht])
       rw [← this, ht]
       intro _; rfl
+
+example :
+    let a : Computer.State1 := { base := { csdw := 0, payload := [1, 2] }, frmt := 1, srcc := 0, rccver := 0xE }
+    let t : Computer.State1 := { base := { csdw := 3, payload := [7] }, frmt := 0, srcc := 1, rccver := 9 }
+    ∃ b, a.pack.2 = .ok b ∧ b.length = 6 ∧ (Computer.State1.unpack t b).2 = .ok () ∧
+      (Computer.State1.unpack t b).1 = a.pack.1 :=
+  ⟨_, rfl, rfl, rfl, rfl⟩
 
 /-- `ComputerGeneratedFormat1.pack` rebuilds `_csdw` from the three fields; a second call changes nothing -/
 theorem CG1_pack_idempotent (s : Computer.State1) : s.pack.1.pack = s.pack := by
@@ -45,10 +65,21 @@ theorem TDF1_unpack_state_independent (t u : TimeFmt.State1) (buf : Bytes) (h : 
   revert h; simp only [TimeFmt.State1.unpack]; repeat' split
   all_goals simp_all
 
+/-- non-vacuity: 2024-02-29 12:00:00 with the year available, decoded into an object configured without year -/
+example :
+    let a : TimeFmt.State1 := ⟨0x251, 1709208000, 123456789⟩
+    let t : TimeFmt.State1 := ⟨0x51, 5, 6⟩
+    ∃ b, a.pack = .ok b ∧ (TimeFmt.State1.unpack t b).2 = .ok () := ⟨_, rfl, rfl⟩
+
 theorem TDF2_unpack_state_independent (fl : Rat → Rat) (t u : TimeFmt.State2) (buf : Bytes)
     (h : (TimeFmt.State2.unpackWith fl t buf).2 = .ok ()) :
     TimeFmt.State2.unpackWith fl t buf = TimeFmt.State2.unpackWith fl u buf := by
   revert h; simp only [TimeFmt.State2.unpackWith]; repeat' split
   all_goals simp_all
+
+example :
+    let a : TimeFmt.State2 := { channel_specific_data := 0x21, seconds := 1709208000, nanoseconds := 999999999 }
+    let t : TimeFmt.State2 := { channel_specific_data := 0x20, seconds := 1, nanoseconds := 2 }
+    ∃ b, a.pack = .ok b ∧ (TimeFmt.State2.unpack t b).2 = .ok () := ⟨_, rfl, rfl⟩
 
 end Acra.Props.C13
